@@ -37,4 +37,50 @@ def run(ctx):
                 {"reexec": ["drive-storage"], "event": e, "seed": ctx.seed}, {"cause": "random-bytes", "store": e["store"]})
 
 
+    scan_sessions(ctx)
+
+
+SS_CFG = """CONSTANT L <- %s
+CONSTANT Scanners = {a, b}
+CONSTANT MaxGets = %d
+CONSTANT SharedOffset = %s
+SPECIFICATION Spec
+INVARIANT Isolation
+INVARIANT Complete
+INVARIANT RetrievedRight
+INVARIANT Emit
+%s
+CHECK_DEADLOCK FALSE
+"""
+
+
+def scan_sessions(ctx):
+    """ScanSession.tla: scanners and retrievals of one list interleaved.  TLC checks the intended design (every reader has a
+    position of its own) and refutes the named deviation FileOffsetShared; the schedules are replayed on a list in memory and
+    on the same list in a file.  Readers open at the same time are outside C11's quantifier: what the replay finds is
+    recorded in the evidence as an observation and never decides the verdict."""
+    import os
+    import vf
+    quick = ctx.tier == "quick"
+    lst, gets = ("List4", 1) if quick else ("List6", 2)
+    r = ctx.tlc("MC_ScanSession", SS_CFG % (lst, gets, "FALSE", "PROPERTY Terminates"), timeout=1500, workers=4)
+    recs = [x for x in r.records if x.get("kind") == "SCHEDULE"]
+    p = os.path.join(ctx.work, "scan-schedules.ndjson")
+    vf.write_ndjson(p, recs)
+    tmp = os.path.join(ctx.work, "files")
+    os.makedirs(tmp, exist_ok=True)
+    s = ctx.vh(["replay-scansession", "in=" + p, "dir=" + tmp], timeout=3000)
+    dev = ctx.tlc("MC_ScanSession", SS_CFG % (lst, gets, "TRUE", ""), timeout=600, workers=1, expect_violation=True)
+    ctx.extra["scan_sessions"] = {
+        "note": "observation outside the quantifier of C11 (readers of one list open at the same time); never part of the verdict",
+        "schedules": s["schedules"],
+        "intended_design_invariants": "Isolation, Complete, RetrievedRight, Terminates hold (TLC, %d states)" % r.distinct,
+        "deviation_FileOffsetShared_refuted_by_TLC": dev.violated[:2],
+        "memory_list_deviates_on": s["memory_list_deviates"],
+        "file_list_deviates_on": s["file_list_deviates"],
+        "memory_samples": s["memory_samples"],
+        "file_samples": (s["file_samples"] or [])[:2],
+    }
+
+
 replay = storagecheck.replay
